@@ -2,6 +2,7 @@
 
 PROP = {'technique': 'Lean refinement of the index-arithmetic decoders to a label-level specification (longest aligned suffix), masking invariant, totality with explicit idna contracts shown necessary; differential tie incl. bounded-exhaustive label sequences',
  'module': 'GolibsVerif.Theorems.C05',
+ 'modules': ['GolibsVerif.Theorems.C05', 'GolibsVerif.Theorems.C05Idna'],
  'namespace': 'GolibsVerif.C05',
  'rule': 'all label sequences of length 0..3 (quick) / 0..5 (thorough) over {0,7,10,255,00,256,01,x,a,F,aa,1a} under both roots for '
          'PrefixFromReversedAddr and ExtractReversedAddr, plus grammar-directed names (0..36 labels, case variants, look-alike roots, '
@@ -17,4 +18,7 @@ PROP = {'technique': 'Lean refinement of the index-arithmetic decoders to a labe
                'bounded-exhaustive label sequences on every run',
  'level_note': 'contracts are explicit hypotheses: hDot (idna.ToASCII keeps a leading dot; needed for extraction totality and prefix '
                'soundness, shown necessary by machine-checked counterexamples) and hT = IDNA-1 (ASCII names without xn-- labels are '
-               'fixed points; needed for completeness); trusted: Lean kernel; correspondence; netip model'}
+               'fixed points; needed for completeness); both are theorems (Idna.hDot_model, Idna.idna1_model) about the model '
+               'Go/Idna.lean of idna.ToASCII, tied to the real function by the op std.idna of C03: prefix_iff_idna, extract_iff_idna, '
+               'extractReversedAddr_total_idna have no idna hypothesis (punycode encode/decode stay parameters, nothing assumed); '
+               'trusted: Lean kernel; correspondence; netip model'}
